@@ -6,7 +6,7 @@ META = {
     "property_id": "C10",
     "level": "model_checking",
     "technique": "TLA+ spec (codec/HexPrefix.tla: Yellow-Paper HP as operators + hexToCompactInPlace as a buffer-overwriting loop) model-checked exhaustively with TLC; every key of the TLC domain replayed on trie/encoding.go; recorded calls on random long keys validated by HexPrefixTrace.tla",
-    "text": "TLC enumerates every HEX key of the bounded domain (all nibble strings up to FullLen over 0..15 and up to SparseLen over {0,1,15}, with and without terminator), checks on each that HP has a left inverse, yields canonical compact keys, has a right inverse on canonical compact keys, sets the leaf/odd flag bits, never maps a leaf key and an extension key (or any two different keys) to the same bytes, that byte keys round-trip, and that the in-place loop (read index ni, write index bi over one buffer) never overwrites an unread nibble and ends with the bytes of HP. The same enumeration is printed as expected results and every key is executed on the real hexToCompact, hexToCompactInPlace, compactToHex, hexToKeybytes, keybytesToHex, writeHexKey. Calls of the real functions on seeded random keys up to 130 nibbles are recorded and TLC checks every <<fn,in,out>> against the specification operators (the in-place call against the loop model run to completion).",
+    "text": "TLC enumerates every HEX key of the bounded domain (all nibble strings up to FullLen over 0..15 and up to SparseLen over {0,1,15}, with and without terminator), plus long schematic keys around 2^8 and 2^9 nibbles; checks on each that HP has a left inverse, yields canonical compact keys, has a right inverse on canonical compact keys, sets the leaf/odd flag bits, never maps a leaf key and an extension key (or any two different keys) to the same bytes, that byte keys round-trip, and that the in-place loop (read index ni, write index bi over one buffer) never overwrites an unread nibble and ends with the bytes of HP. The same enumeration is printed as expected results and every key is executed on the real hexToCompact, hexToCompactInPlace, compactToHex, hexToKeybytes, keybytesToHex, writeHexKey. A second TLA+ layer (HexPrefixMem) models buffer ownership: conversions return fresh buffers, the in-place variant writes to its argument only, and a caller overwriting or appending to a returned buffer changes no other buffer and no later result; every behaviour of bounded depth is executed on real slices without copying results, comparing all buffers after every step. Calls of the real functions on seeded random keys up to 1030 nibbles (dense around 254/510/1024 nibbles), including call chains on returned buffers (decode, re-encode the result in place, decode again; encode, overwrite, encode again) are recorded; a panic of a conversion is a violation; and TLC checks every <<fn,in,out>> against the specification operators (the in-place call against the loop model run to completion).",
     "note": "Exhaustive up to the length bound only (no unbounded proof). hexToCompactInPlace is specified for non-empty buffers (an empty buffer has no room for the flag byte; the stack trie never passes one). compactToHex is specified on canonical compact keys only (flag nibble 0..3, zero padding nibble). Unexported functions reached through trie/verif_export_codec.go (tag verif, thin wrappers).",
     "design_ref": "3.1 C10",
 }
@@ -26,12 +26,22 @@ def run(ctx):
     cp = os.path.join(ctx.scratch, "cases.json")
     write_json(cp, cases)
     ctx.drive(drv, ["-mode", "cases", "-in", cp], name="c10-cases", timeout=1800)
+    # ownership layer: the buffer machine (fresh results, in-place encoding, caller overwrites/appends);
+    # every behaviour of bounded depth replayed on real slices without copying results
+    res = ctx.model_check("codec/HexPrefixMem", "codec/MCHexPrefixMem" if not ctx.thorough else "codec/MCHexPrefixMemThorough",
+                          tags=("MBT",), timeout=ctx.pick(1800, 7200), workers=4, name="MCHexPrefixMem")
+    mbt = res.lines.get("MBT", [])
+    if len(mbt) < 100:
+        raise InfraError("TLC printed only %d buffer-machine behaviours" % len(mbt))
+    mp = os.path.join(ctx.scratch, "mem.json")
+    write_json(mp, mbt)
+    ctx.drive(drv, ["-mode", "mem", "-in", mp], name="c10-mem", timeout=1800)
     # V: recorded calls on random long keys
     tp = os.path.join(ctx.scratch, "trace.ndjson")
     s, _ = ctx.drive(drv, ["-mode", "record", "-trace", tp, "-n", ctx.pick(500, 6000)], name="c10-record", timeout=1800)
     ok, consumed, total, r = ctx.validate("codec/HexPrefixTrace", tp, ntraces=s["evaluations"], timeout=ctx.pick(1800, 7200))
     if not ok:
         ctx.reject_trace("codec/HexPrefixTrace", tp, consumed, r)
-    return ctx.finish(rule="MC/R: all HEX keys of the bounded domain; V: seeded random keys up to 130 nibbles",
+    return ctx.finish(rule="MC/R: all HEX keys of the bounded domain + long schematic keys; all bounded behaviours of the buffer machine; V: seeded random keys up to 1030 nibbles with call chains on returned buffers",
                       assumptions=["length bound of the exhaustive domain", "in-place variant defined for non-empty buffers only",
                                    "compactToHex defined on canonical compact keys only"])
